@@ -22,6 +22,9 @@ pub fn variant() -> &'static str {
 #[derive(Clone, Debug, PartialEq)]
 pub enum SvOp {
     Push(u64),
+    /// `n` pushes of `+0.0` (one token, so that zero runs beyond 2^16 / 2^17 sections — hours of
+    /// silence in a map — fit on a request line)
+    PushZeros(usize),
     Len,
     Iter,
     IterLen,
@@ -41,12 +44,32 @@ pub fn hex(b: u64) -> String {
     format!("{b:016x}")
 }
 
+/// `;`-separated 16-digit hex values; a run of 16 or more `+0.0` is written `z<count>` (the
+/// model driver renders its lists the same way, `showHexList` in Model/StrainsWire.lean).
 pub fn hex_list(v: &[u64]) -> String {
     if v.is_empty() {
-        "-".to_owned()
-    } else {
-        v.iter().map(|b| hex(*b)).collect::<Vec<_>>().join(";")
+        return "-".to_owned();
     }
+    let mut parts: Vec<String> = Vec::new();
+    let mut i = 0;
+    while i < v.len() {
+        if v[i] == 0 {
+            let mut j = i;
+            while j < v.len() && v[j] == 0 {
+                j += 1;
+            }
+            if j - i >= 16 {
+                parts.push(format!("z{}", j - i));
+            } else {
+                parts.extend((i..j).map(|_| hex(0)));
+            }
+            i = j;
+        } else {
+            parts.push(hex(v[i]));
+            i += 1;
+        }
+    }
+    parts.join(";")
 }
 
 pub fn show_f(f: f64) -> String {
@@ -61,6 +84,7 @@ impl SvOp {
     pub fn token(&self) -> String {
         match self {
             SvOp::Push(b) => format!("P{}", hex(*b)),
+            SvOp::PushZeros(n) => format!("Z{n}"),
             SvOp::Len => "L".into(),
             SvOp::Iter => "I".into(),
             SvOp::IterLen => "E".into(),
@@ -100,6 +124,11 @@ pub fn run_real(ops: &[SvOp]) -> Vec<String> {
     for op in ops {
         match op {
             SvOp::Push(b) => v.push(f64::from_bits(*b)),
+            SvOp::PushZeros(n) => {
+                for _ in 0..*n {
+                    v.push(0.0);
+                }
+            }
             SvOp::Len => out.push(format!("L{}", v.len())),
             SvOp::Iter => out.push(format!("I{}", hex_list(&bits(v.iter().collect())))),
             SvOp::IterLen => out.push(format!("E{}", v.iter().len())),
@@ -276,6 +305,12 @@ pub fn corner_ops() -> Vec<Vec<SvOp>> {
     add(&[two, two, two, ONE, ONE, 0, two]);
     let long: Vec<u64> = (0..3000).map(|i| if i % 1000 == 999 { ONE + i } else { 0 }).collect();
     add(&long);
+    // zero runs around 2^16 and 2^17 sections (a map with 7–15 hours of silence): every observer
+    // must still see every section
+    for n in [65_535usize, 65_536, 65_537, 70_000, 131_073] {
+        v.push(vec![Push(ONE), PushZeros(n), Push(two), Len, IterLen, Iter, IntoVec, Sum, RetainSortTransmute, PushZeros(3), Len, IntoVec]);
+    }
+    v.push(vec![PushZeros(70_000), Len, IterLen, IntoVec, Push(ONE), PushZeros(66_000), Len, Iter, IntoVec, Retain, Len, Iter]);
     // retain / sort on the vector itself, then keep pushing
     v.push(vec![Push(ONE), Push(0), Push(two), Retain, Len, IterLen, Iter, SortDesc, Transmute, Push(0), Push(ONE), Len, Iter, IntoVec, Sum]);
     v.push(vec![Retain, SortDesc, Transmute, Len, Iter, Sum, IntoVec]);
@@ -326,6 +361,10 @@ fn plain_list_oracle(ops: &[SvOp], out: &[String]) -> Result<(), String> {
             SvOp::Push(b) => {
                 plain.push(canon(*b));
                 pushes += 1;
+            }
+            SvOp::PushZeros(n) => {
+                plain.extend(std::iter::repeat(0).take(*n));
+                pushes += n;
             }
             SvOp::Retain => plain.retain(|b| *b != 0),
             SvOp::SortDesc => plain = sorted_desc(&plain),
